@@ -30,7 +30,7 @@ func init() {
 		obls, _ := lockFamily(w, "C02")
 		var out []*Obligation
 		for _, o := range obls {
-			if o.Kind == "relock" {
+			if o.Kind == "relock" || o.Kind == "unlock" {
 				o.Props = []string{"C05"}
 				out = append(out, o)
 			}
@@ -119,6 +119,22 @@ func (w *World) lockKindsOf(fn *ssa.Function) map[string]bool {
 		}
 	}
 	return w.lockKinds[fn]
+}
+
+func lockKindFn(k string) string {
+	i := strings.Index(k, ".")
+	return "fieldptr_" + k[:i] + "_" + sanitize(k[i+1:])
+}
+
+// allLockKinds: every kind of mutex some function of the package locks.
+func (w *World) allLockKinds() []string {
+	set := map[string]bool{}
+	for _, f := range w.AllFuncs {
+		for k := range w.lockKindsOf(f) {
+			set[k] = true
+		}
+	}
+	return sortedKeys(set)
 }
 
 // structOfPtr returns the struct name and type behind a pointer-typed SSA value.
@@ -218,10 +234,31 @@ func lockFamily(w *World, prop string) ([]*Obligation, []string) {
 			fx.declareFun(fnm, []string{"Int"}, "Int")
 			return "(" + fnm + " " + ref + ")"
 		}
+		lkEntry := ""
+		// every lock the function took is released when it returns (an early return between Lock and
+		// Unlock leaves the mutex locked for good: the next caller never gets in)
+		fx.onReturn = func(fx *FnExec, ret *ssa.Return, vals []Val) {
+			if lkEntry == "" {
+				return
+			}
+			o := fx.oblige("unlock", "(= "+fx.cur.gh["$lk"]+" "+lkEntry+")", ret, "the locks held at the return are the locks held at the entry: every mutex this function locked is unlocked again on this path")
+			o.Props = []string{"C02", "C05"}
+		}
 		fx.onEntry = func(fx *FnExec) {
 			// no lock is held on entry, except in functions documented as "caller holds the lock"
 			// (flag holds), which are entered with every lock held
 			n := fx.havoc("lk_entry", "(Array Int Int)")
+			lkEntry = n
+			// mutexes of different kinds (struct type and field) are different mutexes
+			kinds := w.allLockKinds()
+			for i := 0; i < len(kinds); i++ {
+				for j := i + 1; j < len(kinds); j++ {
+					a, b := lockKindFn(kinds[i]), lockKindFn(kinds[j])
+					fx.declareFun(a, []string{"Int"}, "Int")
+					fx.declareFun(b, []string{"Int"}, "Int")
+					fx.assumeGlobal("(forall ((qa Int) (qb Int)) (! (distinct (" + a + " qa) (" + b + " qb)) :pattern ((" + a + " qa) (" + b + " qb))))")
+				}
+			}
 			if fx.C == nil || fx.C.Flags["holds"] == "" {
 				fx.assumeGlobal("(= " + n + " ((as const (Array Int Int)) 0))")
 			} else {
@@ -338,7 +375,7 @@ func lockFamily(w *World, prop string) ([]*Obligation, []string) {
 			continue
 		}
 		for _, o := range obls {
-			if o.Kind == "guarded" || o.Kind == "relock" || o.Kind == "immutable" || o.Kind == "shared" {
+			if o.Kind == "guarded" || o.Kind == "relock" || o.Kind == "immutable" || o.Kind == "shared" || o.Kind == "unlock" {
 				out = append(out, o)
 			}
 		}
